@@ -121,6 +121,65 @@ def unbounded_bound(ctx):
     vlib.log("[tlaps] BatcherCore: %s" % info.get("status"))
 
 
+def repo_tests_phase(ctx, prop):
+    """Existing tests, stronger oracle: the unmodified test suites of emit_batcher (and, in the
+    thorough tier or for C08, emit_file and emit_otlp, whose workers run on the channel) are run
+    with the hooks' file tracer on; every channel's recorded lock-held state must evolve by the
+    rules of Batcher.tla's critical sections (spec/HookTrace.tla)."""
+    import subprocess
+    trace = os.path.join(ctx.out, "hook-trace.raw")
+    if os.path.exists(trace):
+        os.remove(trace)
+    e = vlib.cargo_env()
+    e["RUSTFLAGS"] = "--cfg emit_rs_emit_verif --check-cfg cfg(emit_rs_emit_verif)"
+    e["CARGO_TARGET_DIR"] = os.path.join(vlib.HARNESS, "target", "repo-tests")
+    e["EMIT_BATCHER_VERIF_TRACE"] = trace
+    suites = [["-p", "emit_batcher", "--features", "tokio"], ["-p", "emit_file"]]
+    if not ctx.quick:
+        suites.append(["-p", "emit_otlp"])
+    ran = []
+    for sfx in suites:
+        p = subprocess.run(["cargo", "test", "--offline"] + sfx, cwd=vlib.REPO, env=e, timeout=1500,
+                           stdout=subprocess.PIPE, stderr=subprocess.STDOUT, text=True)
+        ok = p.returncode == 0
+        ran.append({"suite": " ".join(sfx), "passed": ok})
+        if not ok:
+            vlib.log("[repo-tests] %s did not pass with the hooks on (not a verdict):\n%s" % (sfx, p.stdout[-800:]))
+    if not os.path.exists(trace):
+        raise vlib.ToolError("the repository's tests produced no hook trace")
+    evs, torn = [], 0
+    for line in open(trace):
+        try:
+            evs.append(json.loads(line))
+        except ValueError:
+            torn += 1       # a test process exited while its worker thread was writing a line
+    if torn > 5:
+        raise vlib.ToolError("%d unparsable lines in the hook trace" % torn)
+    evs.sort(key=lambda x: (x["pid"], x["seq"]))
+    path = os.path.join(ctx.out, "hook-trace.ndjson")
+    with open(path, "w") as f:
+        for x in evs:
+            f.write(json.dumps(x) + "\n")
+    r = ctx.validate_trace("HookTrace", "HookTrace.cfg", path, label="tv-hooktrace")
+    ctx.cov["repo_tests"] = {"suites": ran, "hook_events": len(evs),
+                             "channels": len(set((x["pid"], x["chan"]) for x in evs if x["snap"]))}
+    ctx.cov["traces_validated_against_impl"] += len(set(x["pid"] for x in evs))
+    if r.violated:
+        rej = list(vlib.iter_printed_raw(r.out_path, "REJECTED"))
+        n = int(rej[0].split(",")[0]) if rej else 0
+        bad = evs[n - 1] if n else {}
+        pmap = {"send": "C09", "try_send": "C09", "when_flushed": "C07", "take": "C06", "take_empty": "C06",
+                "attempt": "C06", "batch_end": "C08", "exec_return": "C08"}
+        owner = pmap.get(bad.get("kind"), "C06")
+        what = "HookTrace.tla rejects an execution of the repository's own tests at event %s" % json.dumps(bad)[:300]
+        if owner == prop or owner not in ("C06", "C08"):
+            ctx.violation(what, {"kind": "hook-trace", "events": [x for x in evs if x["pid"] == bad.get("pid")
+                                                                   and x["chan"] == bad.get("chan")][:200]},
+                          signature="hooktrace " + str(bad.get("kind")))
+        else:
+            ctx.cov.setdefault("violations_of_sibling_properties", []).append("%s: %s" % (owner, what[:200]))
+
+
 def flush_trees(ctx):
     """Carry-through of a flush through destination combinators: spec/Flush.tla (M) and its
     cases replayed on the real And/Option/Box/Arc/&/erased/wrap/Runtime (G)."""
@@ -194,6 +253,10 @@ def run(ctx, prop):
         unbounded_bound(ctx)
         from checks import fileset_common
         fileset_common.file_emitter_phase(ctx, "C09", clauses=("bounded",))
+
+    # ------------------------------------------------------------------ the repository's own tests
+    if prop in ("C06", "C08") and ctx.replay_case() is None:
+        repo_tests_phase(ctx, prop)
 
     # ------------------------------------------------------------------ M: liveness (C08)
     if prop == "C08" or not ctx.quick:
